@@ -21,7 +21,7 @@ fn pool() -> Vec<PoolKey> {
     let u = |name| PoolKey { name, hashable: false };
     vec![
         h("one"), h("one_point_zero"), h("zero"), h("neg_zero"), h("half"), h("nan"), h("true"), h("false"), h("nil"), h("str_a"), h("str_a_concat"),
-        h("t12"), h("t12_again"), h("t21"), h("t1_23"), h("t12_3"), h("class_num"), h("r12"), h("r12_again"), h("r21"), h("t_r12"),
+        h("t12"), h("t12_again"), h("t21"), h("t1_23"), h("t12_3"), h("class_num"), h("r12"), h("r12_again"), h("r21"), h("t_r12"), h("t_7"), h("t_733"), h("t_empty"), h("t_55"),
         u("vec"), u("map"), u("tuple_with_vec"), u("lambda"), u("instance"),
     ]
 }
@@ -47,6 +47,12 @@ fn key_expr(name: &str) -> Expr {
         "r12" | "r12_again" => Expr::Paren(Box::new(bin(BinOp::Range, num(1.0), num(2.0)))),
         "r21" => Expr::Paren(Box::new(bin(BinOp::Range, num(2.0), num(1.0)))),
         "t_r12" => Expr::TupleLit(vec![Expr::Paren(Box::new(bin(BinOp::Range, num(1.0), num(2.0)))), s("x")]),
+        // tuples of different lengths whose hashes collide (a tuple's hash combines its elements' hashes by
+        // exclusive or: two equal elements cancel)
+        "t_7" => Expr::TupleLit(vec![num(7.0)]),
+        "t_733" => Expr::TupleLit(vec![num(7.0), num(3.0), num(3.0)]),
+        "t_empty" => Expr::TupleLit(vec![]),
+        "t_55" => Expr::TupleLit(vec![num(5.0), num(5.0)]),
         "vec" => Expr::VecLit(vec![num(1.0)]),
         "map" => Expr::MapLit(vec![]),
         "tuple_with_vec" => Expr::TupleLit(vec![num(1.0), Expr::VecLit(vec![num(2.0)])]),
@@ -77,6 +83,10 @@ fn key_value(name: &str) -> V {
         "r12" | "r12_again" => V::Range(1, 2),
         "r21" => V::Range(2, 1),
         "t_r12" => V::Tuple(Rc::new(vec![V::Range(1, 2), vstr("x")])),
+        "t_7" => V::Tuple(Rc::new(vec![V::Num(7.0)])),
+        "t_733" => V::Tuple(Rc::new(vec![V::Num(7.0), V::Num(3.0), V::Num(3.0)])),
+        "t_empty" => V::Tuple(Rc::new(vec![])),
+        "t_55" => V::Tuple(Rc::new(vec![V::Num(5.0), V::Num(5.0)])),
         _ => V::Nil,
     }
 }
@@ -136,14 +146,14 @@ fn probe(e: Expr) -> Stmt {
     st(StmtKind::Try(vec![print_stmt(Expr::VecLit(vec![e]))], Some(("err".into(), vec![print_stmt(call(var("type"), vec![var("err")]))])), None))
 }
 
-fn program(history: &[Op], ops: &[Op], keys: &[PoolKey]) -> Vec<Stmt> {
+fn program(history: &[Op], ops: &[Op], keys: &[PoolKey], other_ranges: usize) -> Vec<Stmt> {
     let mut prog = vec![class_stmt("K", None, Some("new"), vec![])];
     // others(): ten other ranges are built, so that a range (or a tuple holding one) written as a key
     // afterwards is a separately built object and not one the interpreter still had at hand
     prog.push(fn_stmt(func(
         "others",
         &[],
-        vec![st(StmtKind::For("i".into(), bin(BinOp::Range, num(0.0), num(9.0)), vec![var_stmt("r", bin(BinOp::Range, bin(BinOp::Add, num(100.0), var("i")), bin(BinOp::Sub, num(200.0), var("i"))))]))],
+        vec![st(StmtKind::For("i".into(), bin(BinOp::Range, num(0.0), num(other_ranges as f64)), vec![var_stmt("r", bin(BinOp::Range, bin(BinOp::Add, num(100.0), var("i")), bin(BinOp::Sub, num(200.0), var("i"))))]))],
     )));
     let others = || expr_stmt(call(var("others"), vec![]));
     // build(): the state by its shortest history
@@ -224,7 +234,7 @@ pub fn run(ctx: &Ctx) -> Report {
     // literal construction with 1-3 pairs, including pairs whose keys are equal
     let lits: Vec<Vec<&'static str>> = vec![
         vec!["one"], vec!["one", "one_point_zero"], vec!["zero", "neg_zero"], vec!["neg_zero", "zero"], vec!["t12", "t12_again", "t21"], vec!["str_a", "str_a_concat"], vec!["nan", "nan"],
-        vec!["r12", "r12_again"], vec!["true", "one"], vec!["nil", "false", "zero"], vec!["t1_23", "t12_3"], vec!["class_num", "str_a"],
+        vec!["r12", "r12_again"], vec!["true", "one"], vec!["nil", "false", "zero"], vec!["t1_23", "t12_3"], vec!["class_num", "str_a"], vec!["t_7", "t_733"], vec!["t_empty", "t_55", "t_733"],
     ];
     for l in lits {
         initial.push(vec![Op::Literal(l)]);
@@ -245,7 +255,7 @@ pub fn run(ctx: &Ctx) -> Report {
     while let Some((hist, state, depth)) = queue.pop_front() {
         states += 1;
         max_seen_depth = max_seen_depth.max(depth);
-        cases.push(Case::new("state_with_all_transitions", program(&hist, &ops, &keys)));
+        cases.push(Case::new("state_with_all_transitions", program(&hist, &ops, &keys, if thorough { 70 } else { 9 })));
         transitions += ops.len();
         if depth >= max_depth {
             continue;
@@ -322,7 +332,7 @@ pub fn run(ctx: &Ctx) -> Report {
     mcheck::fill_report(
         &mut report,
         &stats,
-        "breadth-first search over HashMap states (canonical = sorted reference contents) from the empty map and from 12 literals, over insert/remove with every key of a pool holding equal-but-separately-built keys (1 and 1.0, 0 and -0, two builds of (1,2), of \"a\" and of 1..2 - with ten other ranges built before every operation and every dump, so that the two builds are two objects -, a tuple holding a range, nested tuples), NaN, a class, and five unhashable values, plus clear; every transition leaving every state is executed on the real HashMap from a rebuilt copy and followed by a full dump (len; has_key/get through every hashable pool key; keys/values/items enumerate each entry once; a map rebuilt from items is == the original). One program per state.",
+        "breadth-first search over HashMap states (canonical = sorted reference contents) from the empty map and from 14 literals, over insert/remove with every key of a pool holding equal-but-separately-built keys (1 and 1.0, 0 and -0, two builds of (1,2), of \"a\" and of 1..2 - with ten (seventy in the thorough tier) other ranges built before every operation and every dump, so that the two builds are two objects -, a tuple holding a range, nested tuples, two pairs of tuples of different lengths whose hashes collide), NaN, a class, and five unhashable values, plus clear; every transition leaving every state is executed on the real HashMap from a rebuilt copy and followed by a full dump (len; has_key/get through every hashable pool key; keys/values/items enumerate each entry once; a map rebuilt from items is == the original). One program per state.",
         json!({"max_live_entries": max_live, "depth": max_depth, "pool_keys": keys.len()}),
     );
     report.cov("states", json!(states));
